@@ -50,6 +50,11 @@ pub struct S08 {
     /// scale scenario (zero run / unary part / copy of 2^32 bits over the sparse stubs)
     #[serde(default)]
     pub giant: Option<crate::giant::Giant>,
+    /// strict sources only, after the last op: a copy (to / from) of `extra` more bits than the
+    /// source still holds. It must fail, and the failure must not damage what the destination
+    /// had received before: the caller handles the error and goes on writing
+    #[serde(default)]
+    pub past_end: Option<(bool, u64)>,
 }
 
 pub struct C08;
@@ -86,6 +91,7 @@ impl Family for C08 {
                 wword: g.wword,
                 ops: Vec::new(),
                 giant: Some(g),
+                past_end: None,
             };
         }
         let rwb = rkind.word_bits();
@@ -177,6 +183,7 @@ impl Family for C08 {
             wword,
             ops,
             giant: None,
+            past_end: if strict && rng.chance(1, 4) { Some((rng.chance(1, 2), rng.range(1, 3 * rwb as u64))) } else { None },
         }
     }
 
@@ -382,6 +389,52 @@ impl Family for C08 {
         if ctx.failed() {
             return;
         }
+        if let (Some((to, extra)), true, false) = (s.past_end, s.strict, sim.dead) {
+            let remaining = (sim.data_bits - sim.pos.min(sim.data_bits)) as u64;
+            let n = remaining + extra.max(1);
+            ctx.step(base_tags(&sim, if to { "copy_to_past_the_end" } else { "copy_from_past_the_end" }));
+            ctx.ops += 1;
+            let r = if to { guard(|| sim.r.copy_to(&mut w, n)) } else { guard(|| w.copy_from(&mut sim.r, n)) };
+            match r {
+                Ok(Err(_)) => {}
+                Ok(Ok(())) => {
+                    return ctx.fail(
+                        "C08.fabricated",
+                        format!("a copy of {} bits from a strict source holding {} more bits returned Ok", n, remaining),
+                    )
+                }
+                Err(p) => return ctx.fail("C08.panic", format!("copy of {} bits past the end of the source panicked: {}", n, p)),
+            }
+            ctx.probe("c08.copy_past_the_end_fails");
+            // the caller handles the error and goes on writing: whatever the destination had
+            // received before the failed copy is still there, unaltered
+            match guard(|| {
+                w.write_bits(0x5A, 8)?;
+                w.flush()
+            }) {
+                Ok(Ok(_)) => {}
+                Ok(Err(er)) => return ctx.fail("C08.spurious_error", format!("write after a failed copy failed: {}", er)),
+                Err(p) => return ctx.fail("C08.panic", format!("write after a failed copy panicked: {}", p)),
+            }
+            let got = BitModel::from_bytes(e, &h.delivered_bytes());
+            let keep = wm.len();
+            if got.len() < keep || got.bits[..keep] != wm.bits[..] {
+                let gb = h.delivered_bytes();
+                return ctx.fail(
+                    "C08.dest_damaged_by_failed_copy",
+                    format!(
+                        "the destination held {} bits {:02x?} before a copy of {} bits failed at the end of the source; after one more write and a flush it holds {:02x?}: the earlier bits were altered",
+                        keep,
+                        wm.to_bytes(e),
+                        n,
+                        gb
+                    ),
+                );
+            }
+            ctx.progressed = true;
+            let _ = guard(|| unsafe { ManuallyDrop::drop(&mut w) });
+            return;
+        }
         // close the destination and compare the whole image
         ctx.step(base_tags(&sim, "close"));
         match guard(|| w.flush()) {
@@ -412,6 +465,9 @@ impl Family for C08 {
         }
         for ops in shrink_list(&s.ops) {
             out.push(S08 { ops, ..s.clone() });
+        }
+        if s.past_end.is_some() {
+            out.push(S08 { past_end: None, ..s.clone() });
         }
         for (i, op) in s.ops.iter().enumerate() {
             let alts: Vec<Op8> = match op {
@@ -471,6 +527,7 @@ impl Family for C08 {
 
     fn required_probes(_t: Tier) -> Vec<&'static str> {
         vec![
+            "c08.copy_past_the_end_fails",
             "c08.trait_default_copy",
             "scale.giant_copy",
             "c08.copy_with_more_than_a_word_buffered",
